@@ -9,7 +9,7 @@ INFO = ("YRender (TLA+ reference): a tape-driven renderer from abstract node tre
         "values, explicit keys without a ':' line, flow collections as implicit keys, tabs as separation after '-', '?', ':' and before comments, block scalars and multi-line "
         "flow scalars as entries, values, keys and document roots; flow sequences/mappings: single pairs, empty key/value, explicit keys, multi-line layout, trailing commas; properties in both orders and on their own line, aliases, "
         "comments, blank lines, document markers, %YAML). TLC enumerates every tape of length 5 over 8 choices (Gen_Render, breadth-first) and simulates long random tapes; each "
-        "behaviour (text + denoted events) is replayed on the real parser through both back-ends and compared event by event (kind, value, style, anchor, tag). In the model, "
+        "behaviour (text + denoted events) is replayed on the real parser through both back-ends and compared event by event (kind, value, style, anchor, tag), also with the final line break removed when it does not belong to a block scalar. In the model, "
         "the implementation-shaped scanner/parser must read each rendered text as the denoted events (cross-check of renderer and model; disagreement = drift). "
         "Plus the 308 non-error yaml-test-suite cases with the suite's event trees and their CRLF / CR / appended '...' / appended comment variants.",
         "The renderer is sound for YAML, not complete: constructs it does not emit (%TAG handles: C16; the full scalar presentations: C04/C05) are covered by their own generators and the suite corpus. "
@@ -37,7 +37,7 @@ def run(ck):
         outs.append(gen(ck, "Gen_Render_sim2", "sim2", simulate=40000, depth=76, workers=12))
     for o in outs:
         bad = o + ".bad"
-        s = vh_json(["c03", "--in", o, "--out", bad])
+        s = vh_json(["c03", "--in", o, "--out", bad, "--chop", "1"])
         ck.evaluations += s["runs"]
         ck.distinct += s["distinct"]
         ck.traces += s["behaviours"]
